@@ -58,6 +58,9 @@ SortedSeq(S) == IF S = {} THEN <<>>
                 ELSE LET m == CHOOSE m \in S : \A x \in S : m <= x IN <<m>> \o SortedSeq(S \ {m})
 EdgeSeq(S) == LET s == SortedSeq(S) IN [i \in 1..Len(s) |-> PairOf(s[i])]
 EdgeSets == {S \in SUBSET (1..NN * NN) : Cardinality(S) <= MaxE}
+\* hand-picked cyclic graphs on 3 nodes for the liveness instance (MC_Fixpoint_cyc3.cfg substitutes
+\* them for EdgeSets): the 3-cycle, a 2-cycle feeding a self-loop, the 3-cycle with a chord
+CyclicEdgeSets3 == {{2, 6, 7}, {2, 4, 6, 9}, {2, 4, 6, 7}, {1, 2, 6, 7}}
 StartTuples == {st \in [1..NN -> StartVals] : \A i \in 1..NN - 1 : st[i] >= st[i + 1]}
 
 Partial(S, st, d, b) ==
@@ -75,12 +78,12 @@ MCSetup ==
        Reset([cfg EXCEPT !.tr = [e \in 1..Len(cfg.edges) |-> Fam[t[e]]]])
 
 \* (Next of Fixpoint.tla, spelled out so that TLC's coverage reports every action separately;
-\*  all actions of Fixpoint are disabled in phase "pick")
+\*  constant quantifier bounds for the same reason; all actions of Fixpoint are disabled in phase "pick")
 MCNext == \/ MCSetup
           \/ Start
           \/ \E v \in 1..NN : PopVisit(v)
           \/ \E v \in 1..NN : PopDefer(v)
-          \/ \E e \in 1..Len(cfg.edges) : UpdateEdge(e)
+          \/ \E e \in 1..MaxE, x \in 1..4 : UpdateEdgeWith(e, x)   \* = \E e \in Edges(cfg) : UpdateEdge(e)
           \/ FinishNode
           \/ Finish
 MCSpec == MCInit /\ [][MCNext]_vars
